@@ -452,6 +452,83 @@ fn part_c(rep: &mut Report, max_len: usize) -> u64 {
     n
 }
 
+// ---------------------------------------------------------------- Part C2 (manager: registration, suspicion, expiry)
+#[derive(Clone, Copy, Debug)]
+enum MEv {
+    Sync(Upd),
+    /// the local node registers a peer (start-up, or late, after it was already learned through gossip)
+    AddPeer(u8),
+    /// a Suspect message about `member` naming `inc`, reported by c
+    Suspect(u8, u64),
+    /// the suspicion timeout passes and one gossip round runs (expires suspicions)
+    Expire,
+}
+fn block_on_ready<F: std::future::Future>(f: F) -> Option<F::Output> {
+    use std::task::{Context, Poll, RawWaker, RawWakerVTable, Waker};
+    fn noop(_: *const ()) {}
+    fn clone(_: *const ()) -> RawWaker {
+        RawWaker::new(std::ptr::null(), &VTABLE)
+    }
+    static VTABLE: RawWakerVTable = RawWakerVTable::new(clone, noop, noop, noop);
+    let waker = unsafe { Waker::from_raw(RawWaker::new(std::ptr::null(), &VTABLE)) };
+    let mut cx = Context::from_waker(&waker);
+    let mut f = std::pin::pin!(f);
+    match f.as_mut().poll(&mut cx) {
+        Poll::Ready(v) => Some(v),
+        Poll::Pending => None,
+    }
+}
+fn part_c2(rep: &mut Report, max_len: usize) -> (u64, u64) {
+    // member b is the subject; a is the local node; updates about b with inc 0..=2
+    let mut alpha: Vec<MEv> = universe(3).into_iter().filter(|x| x.member == 1).map(MEv::Sync).collect();
+    alpha.extend([MEv::AddPeer(1), MEv::AddPeer(2), MEv::Suspect(1, 0), MEv::Suspect(1, 1), MEv::Suspect(1, 2), MEv::Suspect(1, 3), MEv::Expire]);
+    let seqs = seqs_upto(&alpha, max_len);
+    let (mut n, mut failed_seen) = (0u64, 0u64);
+    let timeout = GossipConfig::default().suspicion_timeout_ms as i64;
+    let rt = tokio::runtime::Builder::new_current_thread().enable_all().build().expect("tokio runtime");
+    let _ = block_on_ready(async {});
+    for seq in &seqs {
+        nvc::env::clock_reset();
+        let transport = Arc::new(MemoryTransport::new("a".to_string()));
+        let mgr = GossipMembershipManager::new("a".to_string(), GossipConfig::default(), transport);
+        let mut last: BTreeMap<String, u64> = BTreeMap::new();
+        // highest incarnation member b itself announced (its own states arrive in Sync messages)
+        let mut announced: BTreeMap<String, u64> = BTreeMap::new();
+        let show = |k: usize| format!("{:?}", &seq[..=k]);
+        for (i, e) in seq.iter().enumerate() {
+            match e {
+                MEv::Sync(x) => {
+                    let a = announced.entry(mname(x.member)).or_insert(0);
+                    *a = (*a).max(x.inc);
+                    mgr.handle_gossip(GossipMessage::Sync { sender: "b".into(), states: vec![x.state()], sender_time: x.ts });
+                }
+                MEv::AddPeer(m) => mgr.add_peer(mname(*m)),
+                MEv::Suspect(m, inc) => mgr.handle_gossip(GossipMessage::Suspect { reporter: "c".into(), suspect: mname(*m), incarnation: *inc }),
+                MEv::Expire => {
+                    nvc::env::clock_advance_ms(timeout + 1);
+                    let _ = rt.block_on(mgr.gossip_round());
+                }
+            }
+            n += 1;
+            for g in mgr.all_states() {
+                let prev = last.insert(g.node_id.clone(), g.incarnation);
+                if prev.is_some_and(|p| g.incarnation < p) {
+                    rep.violation("c17:manager-incarnation-decreased", format!("{} went from {:?} to {} after {}", g.node_id, prev, g.incarnation, show(i)), json!({"part":"C2","events": show(i)}));
+                }
+                if g.health == tensor_chain::membership::NodeHealth::Failed {
+                    failed_seen += 1;
+                    let a = announced.get(&g.node_id).copied().unwrap_or(0);
+                    if g.incarnation > a {
+                        rep.violation("c17:manager-failed-above-announced", format!("{} is recorded Failed at incarnation {} but only ever announced {} (events {})", g.node_id, g.incarnation, a, show(i)), json!({"part":"C2","events": show(i)}));
+                    }
+                }
+            }
+        }
+    }
+    nvc::env::clock_reset();
+    (n, failed_seen)
+}
+
 fn main() {
     let mut rep = Report::new("C17", "model_checking");
     let thorough = rep.thorough();
@@ -459,6 +536,7 @@ fn main() {
     rep.rule("A': all pairs of local-event sequences (<=2) on two equal replicas followed by exchange of all_states()");
     rep.rule("B: BFS over {suspect,fail,refute,mark_healthy,announce,gossip(1),sync} on two replicas, dedup on full replica state");
     rep.rule("C: every sequence of Sync messages through GossipMembershipManager::handle_gossip");
+    rep.rule("C2: every sequence of {Sync about member b (all healths, timestamps, incarnations), add_peer(b), add_peer(c), Suspect(b) naming incarnation 0..3, suspicion timeout + gossip_round} on one GossipMembershipManager: incarnations never decrease, b is never recorded Failed above the highest incarnation it announced");
     rep.assume("incarnations are announced only by the member itself (SWIM): refute/update_local use the member's own counter");
 
     let a_size = if thorough { 5 } else { 4 };
@@ -484,6 +562,13 @@ fn main() {
 
     let c_len = if thorough { 4 } else { 3 };
     let c = part_c(&mut rep, c_len);
+    let (c2, c2_failed) = part_c2(&mut rep, c_len);
+    rep.part("C2_manager_events", json!({"max_len": c_len, "events_executed": c2, "observations_of_a_failed_member": c2_failed}));
+    rep.add("transitions", c2);
+    rep.add("evaluations", c2);
+    if c2_failed == 0 {
+        rep.machinery("vacuous part C2: no member ever recorded as failed");
+    }
     rep.part("C", json!({"max_syncs":c_len,"handle_gossip_calls":c}));
 
     rep.add("states", states + a.multisets + a3.multisets);
